@@ -605,6 +605,24 @@ def run(rep):
                 rep.violation("H8-signed-scaling", k8, where, {"conversions": convs, "example": "lower limit -30, bin width 3: the first bin created is (2^64-30)/3 truncated to the key type, not -10"})
             else:
                 rep.ok("H8-signed-scaling", k8, "no signed key is converted to an unsigned type before the division")
+            # H2c: the dense pre-fill of an empty limit box terminates and creates nothing: its loop condition compares an *unsigned* difference with bin_width,
+            # which a lower bound above the upper bound never lets fall (255 bins for an 8-bit key, no return for an int key)
+            if re.search(r"filler<1", f.get("cls", "") + f["full"]):
+                rep.count("obligations:H2c")
+                k2c = "H2c:detail::filler<1>::operator():empty limit box"
+                guarded = False
+                for x, _ in R.find(g["body"], lambda x: x.get("k") == "If"):
+                    ck = R.key(x["cond"])
+                    rets = [r for r, _ in R.find(x.get("then"), lambda y: y.get("k") == "Return")]
+                    if rets and ck in ("(get($2) < get($1))", "(get($1) > get($2))"):
+                        guarded = True
+                loops_ = loops_of(g["body"])
+                uns = any("unsigned" in (c_.get("to_c") or "") or "size_t" in (c_.get("type") or "") for l_ in loops_ for c_, _ in R.find(l_.get("cond"), lambda y: y.get("k") in ("ExplicitCast", "ImplicitCast")))
+                if guarded or not uns:
+                    rep.ok("H2c-empty-box", k2c, "returns before the loop when upper < lower" if guarded else "the loop condition is a signed comparison")
+                else:
+                    rep.violation("H2c-empty-box", k2c, where, {"loop conditions": [R.key(l_.get("cond"))[:100] for l_ in loops_],
+                                  "example": "fill_histogram(view, histogram<unsigned char>, 1, false, false, false, {}, make_tuple(5), make_tuple(3), true): 255 bins (5..255, 0..3); with histogram<int> the call does not return"})
             if badw and exposed:
                 rep.violation("H2b-prefill-keeps", k, where, {"overwrites": badw, "reached_with": "fill_histogram(..., accumulate = true, ...): %d of %d call(s) of the pre-fill are not guarded by !accumulate" % (exposed, sites)})
             else:
@@ -741,6 +759,7 @@ def run(rep):
     rep.floor("obligations:H9", 3)
     rep.floor("obligations:H6", 6)
     rep.floor("obligations:H11", 2)
+    rep.floor("obligations:H2c", 1)
     rep.floor("obligations:H3c", 1)
     rep.floor("obligations:H5b", 2)
     rep.floor("obligations:H7", 6)
